@@ -226,13 +226,13 @@ pub fn cmd_forged(input: &str, output: &str) {
 
 // ---------------------------------------------------------------- honest logs
 
-enum Tok {
+pub enum Tok {
     V(Biscuit),
     U(UnverifiedBiscuit),
 }
 
 impl Tok {
-    fn to_vec(&self) -> Vec<u8> {
+    pub fn to_vec(&self) -> Vec<u8> {
         match self {
             Tok::V(b) => b.to_vec().unwrap(),
             Tok::U(b) => b.to_vec().unwrap(),
@@ -462,4 +462,14 @@ pub fn cmd_unique(n: usize, output: &str) {
     }
     std::fs::write(output, json!({"ids": total, "duplicates": dup}).to_string()).unwrap();
     println!("chain-unique: {total} ids, {dup} duplicates");
+}
+
+/// run a whole honest operation log through the (verified) API
+pub fn run_log(log: &[Value]) -> Result<Vec<Tok>, String> {
+    let mut toks: Vec<Tok> = Vec::new();
+    for op in log {
+        let t = run_op(op, &toks, false)?;
+        toks.push(t);
+    }
+    Ok(toks)
 }
